@@ -467,6 +467,8 @@ def verdict(ctx, mod, proof, res):
         print(
             f"OK property={prop} tier={ctx.tier} seed={ctx.seed} theorems={len(proof['theorems'])} "
             f"cases={res.evaluations} nontrivial={len(res.nontrivial)} wall={time.time()-ctx.t0:.1f}s"
+            + (f" translator_tie={str(proof['translator_tie']).split(' ')[0].rstrip(':')}" if proof.get("translator_tie") else "")
+            + (" template_extractor=unavailable" if str(proof.get("template_extractor", "")).startswith("unavailable") else "")
         )
         return 0
     # Proof obligation or correspondence broken: search for a failing input.
